@@ -18,7 +18,7 @@ IsNone(a) == a[1] = "none"
 IsBool(a) == a[1] = "bool"
 BadType(a, noneOk) == ~IsI(a) /\ ~IsBool(a) /\ ~(noneOk /\ IsNone(a))
 
-IntVals  == { <<"i", -1>>, <<"i", 0>>, <<"i", 1>>, <<"i", 2>>, <<"i", 5>>, <<"i", 17>>, <<"none">>, <<"float">>, <<"str">>, <<"bool">> }
+IntVals  == { <<"i", -1>>, <<"i", 0>>, <<"i", 1>>, <<"i", 2>>, <<"i", 5>>, <<"i", 17>>, <<"none">>, <<"float">>, <<"float1">>, <<"str">>, <<"bool">> }    \* float = 1.5, float1 = 1.0 (equal to the int 1, not an int)
 
 \* outcome [ok, ex]: ok = returning a pattern is allowed; ex = allowed exceptions
 O(ok, ex) == [ok |-> ok, ex |-> ex]
